@@ -298,7 +298,8 @@ def make_tree(rng):
     # no '+' in labels (collapsing concatenates with '+'), no '@' first
     gen.spice(rng, spec, ['cat-keyword', 'cat-apostrophe', 'cat-digit-first',
                           'pos-apostrophe', 'word-keyword', 'word-unicode',
-                          'word-typographic-punct', 'word-unispace'],
+                          'word-typographic-punct', 'word-unispace',
+                          'edge-odd', 'pos-keyword', 'word-python-literal'],
               root_labels=['TOP', 'ROOT', 'S'])
     return spec
 
